@@ -23,6 +23,7 @@ import (
 	"fmt"
 	"hash/fnv"
 	"os"
+	"runtime/debug"
 	"runtime/pprof"
 	"sort"
 	"strings"
@@ -46,11 +47,13 @@ type famStats struct {
 	WithLogs      int64
 	WithCalls     int64
 	WithSuicide   int64
+	MaxWork       uint64
+	WorkHist      map[string]int64
 	distinct      map[uint64]struct{}
 }
 
 func newFamStats() *famStats {
-	return &famStats{Excluded: map[string]int64{}, Classes: map[string]int64{}, distinct: map[uint64]struct{}{}}
+	return &famStats{Excluded: map[string]int64{}, Classes: map[string]int64{}, WorkHist: map[string]int64{}, distinct: map[uint64]struct{}{}}
 }
 
 func (s *famStats) merge(o *famStats) {
@@ -63,11 +66,17 @@ func (s *famStats) merge(o *famStats) {
 	s.WithLogs += o.WithLogs
 	s.WithCalls += o.WithCalls
 	s.WithSuicide += o.WithSuicide
+	if o.MaxWork > s.MaxWork {
+		s.MaxWork = o.MaxWork
+	}
 	for k, v := range o.Excluded {
 		s.Excluded[k] += v
 	}
 	for k, v := range o.Classes {
 		s.Classes[k] += v
+	}
+	for k, v := range o.WorkHist {
+		s.WorkHist[k] += v
 	}
 	for k := range o.distinct {
 		s.distinct[k] = struct{}{}
@@ -76,16 +85,18 @@ func (s *famStats) merge(o *famStats) {
 
 func (s *famStats) summary() map[string]interface{} {
 	return map[string]interface{}{
-		"cases":                         s.Cases,
-		"compared":                      s.Compared,
-		"excluded":                      s.Excluded,
-		"reference_outcome_classes":     s.Classes,
-		"distinct_outcome_records":      len(s.distinct),
-		"cases_executing_sstore":        s.WithStorage,
-		"cases_emitting_logs":           s.WithLogs,
-		"cases_with_nested_call_create": s.WithCalls,
-		"cases_with_selfdestruct":       s.WithSuicide,
-		"disagreements":                 s.Disagreements,
+		"cases":                                s.Cases,
+		"compared":                             s.Compared,
+		"excluded":                             s.Excluded,
+		"reference_outcome_classes":            s.Classes,
+		"distinct_outcome_records":             len(s.distinct),
+		"cases_executing_sstore":               s.WithStorage,
+		"cases_emitting_logs":                  s.WithLogs,
+		"cases_with_nested_call_create":        s.WithCalls,
+		"cases_with_selfdestruct":              s.WithSuicide,
+		"disagreements":                        s.Disagreements,
+		"max_work_gas_of_a_compared_case":      s.MaxWork,
+		"work_gas_histogram_of_compared_cases": s.WorkHist,
 	}
 }
 
@@ -93,6 +104,9 @@ func (s *famStats) account(r *pairResult) {
 	s.Cases++
 	if r.excluded != "" {
 		s.Excluded[r.excluded]++
+		if debugExcluded && r.excluded != "reference-work-above-limit" {
+			fmt.Fprintf(os.Stderr, "EXCLUDED %s: %s\n", r.excluded, r.label)
+		}
 		return
 	}
 	s.Compared++
@@ -108,6 +122,21 @@ func (s *famStats) account(r *pairResult) {
 	}
 	if r.ref.Suicides != "" {
 		s.WithSuicide++
+	}
+	if r.ref.Meter.Work > s.MaxWork {
+		s.MaxWork = r.ref.Meter.Work
+	}
+	switch w := r.ref.Meter.Work; {
+	case w < 10000:
+		s.WorkHist["<1e4"]++
+	case w < 100000:
+		s.WorkHist["<1e5"]++
+	case w < 1000000:
+		s.WorkHist["<1e6"]++
+	case w < 3000000:
+		s.WorkHist["<3e6"]++
+	default:
+		s.WorkHist[">=3e6"]++
 	}
 	s.distinct[digest(r.ref)] = struct{}{}
 	if r.differs != "" {
@@ -135,7 +164,10 @@ func digest(o *outcome) uint64 {
 
 // ---------------------------------------------------------------- one case on both sides
 
+var debugExcluded = os.Getenv("C10_DEBUG_EXCLUDED") != ""
+
 type pairResult struct {
+	label    string
 	excluded string
 	ref, it  *outcome
 	differs  string
@@ -156,7 +188,7 @@ var ctxPool = sync.Pool{New: func() interface{} { return &sideCtx{} }}
 func runPair(k *txCase, traces *[2][]stepRec) pairResult {
 	c := ctxPool.Get().(*sideCtx)
 	defer ctxPool.Put(c)
-	var r pairResult
+	r := pairResult{label: k.Label}
 	var rr *run_RF
 	var ri *run_IT
 	var recR, recI *[]stepRec
@@ -278,13 +310,8 @@ func (d *driver) signature(k *txCase, r *pairResult) (map[string]string, string)
 		}
 		return sig, fmt.Sprintf("first divergence of the instruction traces: effect of %s at call depth %d; symptom: %s", opTable[op].name, depth, sym)
 	}
-	sig["culprit"] = "not-visible-in-trace"
+	sig["culprit"] = "side-effect-not-visible-in-trace"
 	sig["symptom"] = sym
-	for a, b := range k.Sig {
-		if _, dup := sig[a]; !dup {
-			sig[a] = b
-		}
-	}
 	return sig, "instruction traces (pc, opcode, stack top, memory) identical; symptom: " + sym
 }
 
@@ -336,7 +363,7 @@ func (d *driver) runCases(n int, gen func(i int) *txCase, st *famStats, perOp ma
 			k := gen(i)
 			r := runPair(k, nil)
 			loc.account(&r)
-			if perOp != nil && r.excluded == "" {
+			if perOp != nil && r.excluded == "" && k.Sig["ctx"] == "direct" {
 				mu.Lock()
 				e := perOp[k.Sig["op"]]
 				if e == nil {
@@ -447,6 +474,12 @@ func determinismProbe(cases []*txCase) {
 
 func main() {
 	run := core.Start("C10", "exploration", "DIFFREF")
+	// every case allocates two EVMs (two 18 KB jump tables each) on a tiny live heap: collect less often
+	if v := os.Getenv("C10_GOGC"); v != "" {
+		var g int
+		fmt.Sscan(v, &g)
+		debug.SetGCPercent(g)
+	}
 	calibrate_IT()
 	calibrate_RF()
 	if revertErr_RF == nil {
